@@ -72,6 +72,13 @@ class Obl:
         return self._mk(HOLDS, fn, node, instance, "", construct=construct)
 
     def violated(self, fn=None, node=None, reason: str = "", instance: str = "", key: str = "", construct=None):
+        # A function that still delegates to a helper which does not exist on the pinned tree (and could not be
+        # inlined, see normalize.py) is only partly visible to the rules: nothing is concluded against it.
+        if isinstance(fn, FuncInfo):
+            res = self.ctx.prog.residual_helpers(fn)
+            if res:
+                return self._mk(UNDECIDED, fn, node, instance,
+                                f"(not accused: `{fn.qualname}` delegates to the new helper(s) {res}, which the rules cannot see through) {reason}")
         return self._mk(VIOLATED, fn, node, instance, reason, key=key, construct=construct)
 
     def undecided(self, reason: str, fn=None, node=None, instance: str = ""):
